@@ -54,10 +54,50 @@ def _unwrap(e):
     return e
 
 
+def _row_strings(tree):
+    """{id(setattr/delattr call): set of attribute names} for calls whose computed name is the loop variable of a `for` over a literal
+    table of rows (module- or class-level NAME = ((..., 'name', ...), ...)) in which that column holds string constants only: the call
+    can set exactly those names"""
+    lits = {}
+    for s in ast.walk(tree):
+        if isinstance(s, ast.Assign) and len(s.targets) == 1 and isinstance(s.targets[0], ast.Name):
+            v = _unwrap(s.value)
+            if isinstance(v, (ast.Tuple, ast.List)) and v.elts:
+                lits.setdefault(s.targets[0].id, []).append(v)
+    out = {}
+    for f in ast.walk(tree):
+        if not isinstance(f, ast.For):
+            continue
+        it = f.iter
+        nm = it.id if isinstance(it, ast.Name) else (it.attr if isinstance(it, ast.Attribute) and isinstance(it.value, ast.Name) else None)
+        if nm is None or len(lits.get(nm, [])) != 1:
+            continue
+        rows = lits[nm][0].elts
+        cols = {}
+        if isinstance(f.target, ast.Name):
+            if all(isinstance(r, ast.Constant) and isinstance(r.value, str) for r in rows):
+                cols[f.target.id] = {r.value for r in rows}
+        elif isinstance(f.target, (ast.Tuple, ast.List)):
+            for i, t in enumerate(f.target.elts):
+                if isinstance(t, ast.Name) and all(isinstance(r, (ast.Tuple, ast.List)) and len(r.elts) == len(f.target.elts) and isinstance(r.elts[i], ast.Constant)
+                                                   and isinstance(r.elts[i].value, str) for r in rows):
+                    cols[t.id] = {r.elts[i].value for r in rows}
+        if not cols:
+            continue
+        stored = {x.id for b in f.body for x in ast.walk(b) if isinstance(x, ast.Name) and isinstance(x.ctx, (ast.Store, ast.Del))}
+        for b in f.body:
+            for c in ast.walk(b):
+                if isinstance(c, ast.Call) and isinstance(c.func, ast.Name) and c.func.id in ('setattr', 'delattr') and len(c.args) >= 2 \
+                        and isinstance(c.args[1], ast.Name) and c.args[1].id in cols and c.args[1].id not in stored:
+                    out[id(c)] = cols[c.args[1].id]
+    return out
+
+
 def mutated_names(tree, names, defs=(), dynamic=None):
     """the names (bare or as attribute) among `names` that are rebound, deleted, item-assigned, augmented or receive a mutating
     method call anywhere in the module, other than by the defining targets in `defs` (ids of Name nodes)"""
     bad = set()
+    row_names = _row_strings(tree)
     for n in ast.walk(tree):
         if isinstance(n, ast.Name) and n.id in names and isinstance(n.ctx, (ast.Store, ast.Del)) and id(n) not in defs:
             bad.add(n.id)
@@ -84,6 +124,8 @@ def mutated_names(tree, names, defs=(), dynamic=None):
             a = n.args[1]
             if isinstance(a, ast.Constant) and a.value in names:
                 bad.add(a.value)
+            elif id(n) in row_names:
+                bad |= row_names[id(n)] & set(names)          # the name comes out of a literal table of rows: exactly these
             elif not isinstance(a, ast.Constant) and isinstance(n.args[0], ast.Name) and (n.args[0].id in ('self', 'cls') or n.args[0].id[:1].isupper()):
                 # a computed attribute name on the object / class that owns the tables could be any of its class-level names
                 bad |= set(names if dynamic is None else dynamic)
@@ -694,7 +736,13 @@ class _SplitWrites:
                     and isinstance(c.args[0], ast.BinOp) and isinstance(c.args[0].op, ast.Add):
                 ps = self.parts(c.args[0])
                 # only byte-string building blocks: calls and byte constants (never arithmetic on numbers)
-                if all(isinstance(p_, ast.Call) or (isinstance(p_, ast.Constant) and isinstance(p_.value, (bytes, str))) for p_ in ps):
+                def surely_bytes(p_):
+                    # a bytes constant, or one repeated: b'\x00' * n - concatenation then forces every other operand to be a byte string too
+                    if isinstance(p_, ast.Constant) and isinstance(p_.value, bytes):
+                        return True
+                    return isinstance(p_, ast.BinOp) and isinstance(p_.op, ast.Mult) and any(isinstance(x_, ast.Constant) and isinstance(x_.value, bytes) for x_ in (p_.left, p_.right))
+                if all(isinstance(p_, ast.Call) or (isinstance(p_, ast.Constant) and isinstance(p_.value, (bytes, str))) for p_ in ps) or \
+                        (any(surely_bytes(p_) for p_ in ps) and all(surely_bytes(p_) or isinstance(p_, (ast.Call, ast.Name, ast.Attribute)) for p_ in ps)):
                     for p_ in ps:
                         call = ast.Call(func=copy.deepcopy(c.func), args=[p_], keywords=[])
                         st_ = ast.Expr(value=call)
